@@ -119,6 +119,11 @@ func (zns *ZnPMServer) StartMaster(connUrl string, cfg ZnPMServerConfig) error {
 	if cfg.MaxProcs > 0 && cfg.InitProcs > cfg.MaxProcs {
 		cfg.InitProcs = cfg.MaxProcs
 	}
+	// new workers are only started in reaction to reports and exits of existing ones: a pool
+	// that starts with no worker at all would never get one and would serve nobody
+	if cfg.InitProcs < 1 {
+		cfg.InitProcs = 1
+	}
 	network, address, err := parseConnUrl(connUrl)
 	if err != nil {
 		return err
